@@ -80,6 +80,7 @@ struct E2E {
 /// decode one frame with the real decoder, then re-enact the tail of `Ldap::op_call`:
 /// conversion + `result.ctrls = controls`
 fn real_e2e(bs: &[u8]) -> E2E {
+    crate::out::mark(&format!("env.dec {}", hex(bs)));
     let input = bs.to_vec();
     let dec = guarded(move || {
         let mut buf = BytesMut::from(&input[..]);
